@@ -69,6 +69,13 @@ type Rec struct {
 	Bool bool             `nbt:"bool"`
 }
 
+type Mixed struct {
+	D    dynbt.Value            `nbt:"d"`
+	R    nbt.RawMessage         `nbt:"r"`
+	S    nbt.StringifiedMessage `nbt:"s"`
+	Tail int64                  `nbt:"tail"`
+}
+
 func genInner(tp *tape.Tape) *nbtgen.Node {
 	n := &nbtgen.Node{Tag: nbtgen.Compound}
 	add := func(k string, v *nbtgen.Node) { n.Keys = append(n.Keys, k); n.Vals = append(n.Vals, v) }
@@ -157,7 +164,8 @@ func nbtDecoder(r io.Reader, network, disallow bool) *nbt.Decoder {
 
 var readOps = []string{
 	"packet.unpack.plain", "packet.unpack.zlib", "conn.readpacket",
-	"nbt.any", "nbt.map", "nbt.struct", "nbt.struct.unknown", "nbt.slice", "nbt.raw", "nbt.snbt", "nbt.dynbt",
+	"nbt.any", "nbt.map", "nbt.struct", "nbt.struct.unknown", "nbt.struct.mixed", "nbt.slice", "nbt.raw", "nbt.snbt", "nbt.dynbt",
+	"field.ary.fixedlen", "field.optiondecoder",
 	"field.fixed", "field.var", "field.string", "field.bytes", "field.bitset", "field.fixedbitset", "field.plugin",
 	"field.nbt", "field.option", "field.opt", "field.ary", "field.tuple", "field.signature", "rcon.readpacket",
 }
@@ -243,6 +251,70 @@ func genReadCase(tp *tape.Tape, op string) *readCase {
 			var v Rec
 			_, err := nbtDecoder(r, network, false).Decode(&v)
 			return v, -1, err
+		}
+	case "nbt.struct.mixed":
+		// Unmarshaler-typed fields inside a reflected struct: the decoder hands its
+		// own reader to RawMessage / StringifiedMessage / dynbt.Value mid-document
+		n := &nbtgen.Node{Tag: nbtgen.Compound}
+		for _, k := range []string{"d", "r", "s", "tail"} {
+			if tp.Bool(3, 4) {
+				n.Keys = append(n.Keys, k)
+				if k == "tail" {
+					n.Vals = append(n.Vals, nbtgen.GenTag(tp, nbtgen.Long, 0))
+				} else {
+					n.Vals = append(n.Vals, nbtgen.Gen(tp, 2))
+				}
+			}
+		}
+		rc.doc = nbtgen.Doc(n, name, network)
+		rc.dec = func(r io.Reader) (any, int64, error) {
+			var v Mixed
+			_, err := nbtDecoder(r, network, false).Decode(&v)
+			if err != nil {
+				return nil, -1, err
+			}
+			var out bytes.Buffer
+			merr := nbt.NewEncoder(&out).Encode(&v.D, "")
+			return []any{out.Bytes(), merr == nil, v.R, v.S, v.Tail}, -1, nil
+		}
+	case "field.ary.fixedlen":
+		kind := tp.Choose(3)
+		cnt := tp.Choose(5)
+		switch kind {
+		case 0:
+			rc.doc = []byte{byte(cnt)}
+		case 1:
+			rc.doc = []byte{0, byte(cnt)}
+		default:
+			rc.doc = []byte{0, 0, 0, byte(cnt)}
+		}
+		rc.doc = append(rc.doc, gen.Fill(tp, 8*cnt, 9, 12)...)
+		rc.desc = []string{"Ary[Byte] of Long", "Ary[Short] of Long", "Ary[Int] of Long"}[kind]
+		rc.dec = func(r io.Reader) (any, int64, error) {
+			var v []pk.Long
+			var n int64
+			var err error
+			switch kind {
+			case 0:
+				n, err = pk.Ary[pk.Byte]{Ary: &v}.ReadFrom(r)
+			case 1:
+				n, err = pk.Ary[pk.Short]{Ary: &v}.ReadFrom(r)
+			default:
+				n, err = pk.Ary[pk.Int]{Ary: &v}.ReadFrom(r)
+			}
+			return v, n, err
+		}
+	case "field.optiondecoder":
+		has := tp.Bool(2, 3)
+		if has {
+			rc.doc = append([]byte{1}, gen.Fill(tp, 16, 9, 13)...)
+		} else {
+			rc.doc = []byte{0}
+		}
+		rc.dec = func(r io.Reader) (any, int64, error) {
+			var v pk.OptionDecoder[pk.UUID, *pk.UUID]
+			n, err := v.ReadFrom(r)
+			return v, n, err
 		}
 	case "nbt.slice":
 		switch tp.Choose(5) {
